@@ -203,6 +203,11 @@ func extractSaslPlain(repo, root string) error {
 		b.WriteString("/-- (scenario of call outcomes, calls made in order, value returned) -/\n")
 		b.WriteString("def " + x.lean + " : List (List String × List String × String) := [\n  " + strings.Join(rows, ",\n  ") + "]\n")
 	}
+	sf, err := scramFacts(repo)
+	if err != nil {
+		return err
+	}
+	b.WriteString(sf)
 	b.WriteString("end KV.Gen\n")
 	return os.WriteFile(filepath.Join(root, "lean", "KafkaVerif", "Gen", "SaslPlainFmt.lean"), []byte(b.String()), 0o644)
 }
